@@ -33,6 +33,8 @@ struct Spec {
     /// (A secret in a file *and* in PASSAGE_AUTHSECRET makes Config::read fail with "duplicate
     /// field" - the application does not start, so no connection is handled: not a C14 matter.)
     layered: u8,
+    /// only the deadline clients are run against this listener (its timeout leaves no room for anything else)
+    only_deadline: bool,
 }
 
 pub(crate) static ENV_LOCK: std::sync::Mutex<()> = std::sync::Mutex::new(());
@@ -360,26 +362,28 @@ pub async fn run(cli: &Cli, report: &mut Report) {
     let lateness = tcp::Lateness::start();
     let specs: Vec<Spec> = {
         let mut v = vec![
-            Spec { max_packet_length: 64, expiry: 5, timeout: 1, secret: "operator secret A".into(), from_file: true, layered: 0 },
-            Spec { max_packet_length: 16, expiry: 60, timeout: 2, secret: "operator secret E".into(), from_file: false, layered: 0 },
-            Spec { max_packet_length: 400, expiry: 60, timeout: 2, secret: "operator secret B".into(), from_file: true, layered: 1 },
-            Spec { max_packet_length: 2000, expiry: 5, timeout: 3, secret: "s".into(), from_file: false, layered: 0 },
+            Spec { max_packet_length: 64, expiry: 5, timeout: 1, secret: "operator secret A".into(), from_file: true, layered: 0, only_deadline: false },
+            Spec { max_packet_length: 16, expiry: 60, timeout: 2, secret: "operator secret E".into(), from_file: false, layered: 0, only_deadline: false },
+            Spec { max_packet_length: 400, expiry: 60, timeout: 2, secret: "operator secret B".into(), from_file: true, layered: 1, only_deadline: false },
+            Spec { max_packet_length: 2000, expiry: 5, timeout: 3, secret: "s".into(), from_file: false, layered: 0, only_deadline: false },
             // long deadline: room for clients that stall before presenting their cookie
-            Spec { max_packet_length: 1000, expiry: 5, timeout: 8, secret: "operator secret F".into(), from_file: false, layered: 0 },
+            Spec { max_packet_length: 1000, expiry: 5, timeout: 8, secret: "operator secret F".into(), from_file: false, layered: 0, only_deadline: false },
             // server-issued cookies presented within / beyond the configured expiry
-            Spec { max_packet_length: 1000, expiry: 4, timeout: 9, secret: "operator secret G".into(), from_file: false, layered: 0 },
+            Spec { max_packet_length: 1000, expiry: 4, timeout: 9, secret: "operator secret G".into(), from_file: false, layered: 0, only_deadline: false },
         ];
         // every layer of the configuration disagrees; the environment decides
-        v.push(Spec { max_packet_length: 450, expiry: 60, timeout: 3, secret: "operator secret H".into(), from_file: true, layered: 2 });
+        v.push(Spec { max_packet_length: 450, expiry: 60, timeout: 3, secret: "operator secret H".into(), from_file: true, layered: 2, only_deadline: false });
+        // "no patience at all": timeout 0 is a configured value like any other
+        v.push(Spec { max_packet_length: 1000, expiry: 60, timeout: 0, secret: "operator secret K".into(), from_file: false, layered: 0, only_deadline: true });
         // a secret longer than one HMAC block (HMAC hashes longer keys, it does not cut them)
-        v.push(Spec { max_packet_length: 450, expiry: 60, timeout: 3, secret: "0123456789abcdef".repeat(7), from_file: false, layered: 0 });
+        v.push(Spec { max_packet_length: 450, expiry: 60, timeout: 3, secret: "0123456789abcdef".repeat(7), from_file: false, layered: 0, only_deadline: false });
         // a secret that a typed configuration layer could take for a number: it is text
-        v.push(Spec { max_packet_length: 450, expiry: 60, timeout: 3, secret: "0042".into(), from_file: true, layered: 2 });
+        v.push(Spec { max_packet_length: 450, expiry: 60, timeout: 3, secret: "0042".into(), from_file: true, layered: 2, only_deadline: false });
         if thorough {
-            v.push(Spec { max_packet_length: 450, expiry: 60, timeout: 3, secret: "1e3".into(), from_file: true, layered: 2 });
-            v.push(Spec { max_packet_length: 450, expiry: 60, timeout: 3, secret: "TRUE".into(), from_file: true, layered: 2 });
-            v.push(Spec { max_packet_length: 1000, expiry: 60, timeout: 18, secret: "operator secret C".into(), from_file: false, layered: 0 });
-            v.push(Spec { max_packet_length: 500, expiry: 3600, timeout: 4, secret: "operator secret D".into(), from_file: false, layered: 0 });
+            v.push(Spec { max_packet_length: 450, expiry: 60, timeout: 3, secret: "1e3".into(), from_file: true, layered: 2, only_deadline: false });
+            v.push(Spec { max_packet_length: 450, expiry: 60, timeout: 3, secret: "TRUE".into(), from_file: true, layered: 2, only_deadline: false });
+            v.push(Spec { max_packet_length: 1000, expiry: 60, timeout: 18, secret: "operator secret C".into(), from_file: false, layered: 0, only_deadline: false });
+            v.push(Spec { max_packet_length: 500, expiry: 3600, timeout: 4, secret: "operator secret D".into(), from_file: false, layered: 0, only_deadline: false });
         }
         v
     };
@@ -401,7 +405,10 @@ pub async fn run(cli: &Cli, report: &mut Report) {
         // (C02 mode: only the cookie cases)
         let cookies_only = cli.prop == "C02" || cli.prop == "C10";
         let frames_only = cli.prop == "C04";
-        let deadlines_only = cli.prop == "C06";
+        let deadlines_only = cli.prop == "C06" || spec.only_deadline;
+        if spec.only_deadline && (cli.prop == "C02" || cli.prop == "C10" || cli.prop == "C04") {
+            continue;
+        }
         // max+1, a frame that still fits any small receive buffer, and a much larger one
         for declared in if cookies_only || deadlines_only { vec![] } else { vec![m, m + 1, m + 12, 10 * m] } {
             futures.push(Box::pin(frame_case(addr, m, declared)));
